@@ -8,6 +8,7 @@ package main
 // NOTE is recorded; the main thread blocking is a "blocked" outcome.
 
 import (
+	"fmt"
 	"go/types"
 
 	"golang.org/x/tools/go/ssa"
@@ -84,11 +85,10 @@ func (vm *VM) spawn(fr *Frame, x *ssa.Go) {
 			pg.fn = fv
 		}
 	}
+	pg.tid = vm.newTid()
 	if rs := vm.P.race; rs != nil && rs.on {
 		// goroutine start: everything before `go` happens before the new goroutine
 		my := rs.clockOf(vm.P.curThread)
-		pg.tid = rs.nextTid
-		rs.nextTid++
 		pg.vc = my.copy()
 		pg.vc[pg.tid] = 1
 		my[vm.P.curThread]++
@@ -96,121 +96,258 @@ func (vm *VM) spawn(fr *Frame, x *ssa.Go) {
 	vm.P.pending = append(vm.P.pending, pg)
 }
 
-// runPendingAt runs only the i-th queued goroutine (to completion or until it parks).
+// ---- goroutines as coroutines --------------------------------------------------------------
+//
+// A goroutine started by `go` is queued (pendingGo).  When the harness (vRunPending,
+// vRunPendingAt) or a blocked main thread schedules it, it runs as a coroutine: on its own
+// host goroutine, but strictly alternating with the scheduler, so that the interpreter state is
+// only ever touched by one of them.  A goroutine that cannot go on (channel not ready, lock
+// taken) PARKS: it hands control back together with its wake-up condition and stays suspended
+// with its whole stack; a later scheduling round resumes it when the condition holds.  This is
+// a schedule in which every goroutine runs without preemption up to its next blocking
+// operation - the harness chooses the order.
+
+type coro struct {
+	pg      *pendingGo
+	resume  chan bool // true: go on; false: the path is over, unwind
+	yield   chan coroMsg
+	ready   func() bool
+	what    string
+	started bool
+	// interpreter context while parked
+	cur        *Frame
+	depth      int
+	panicStack []*goPanic
+	held       []string
+}
+
+type coroMsg struct {
+	done bool
+	pan  any
+}
+
+type abortCoro struct{}
+
+func (vm *VM) newTid() int {
+	if rs := vm.P.race; rs != nil && rs.nextTid > vm.P.nextTid {
+		vm.P.nextTid = rs.nextTid
+	}
+	if vm.P.nextTid < 3 {
+		vm.P.nextTid = 3
+	}
+	t := vm.P.nextTid
+	vm.P.nextTid++
+	if rs := vm.P.race; rs != nil {
+		rs.nextTid = vm.P.nextTid
+	}
+	return t
+}
+
+// stepCoro runs (or resumes) co until it finishes or parks.  Returns true when it finished.
+func (vm *VM) stepCoro(co *coro) (finished bool) {
+	P := vm.P
+	sCur, sDepth, sStack, sThread, sHeld, sCo := vm.cur, vm.depth, vm.panicStack, P.curThread, P.heldOrder, vm.co
+	restore := func() {
+		vm.cur, vm.depth, vm.panicStack, P.curThread, P.heldOrder, vm.co = sCur, sDepth, sStack, sThread, sHeld, sCo
+	}
+	P.curThread = co.pg.tid
+	vm.co = co
+	if co.started {
+		vm.cur, vm.depth, vm.panicStack, P.heldOrder = co.cur, co.depth, co.panicStack, co.held
+		for _, k := range co.held {
+			if ls := P.locks[k]; ls != nil {
+				ls.parked = false
+			}
+		}
+	} else {
+		co.started = true
+		vm.panicStack = nil
+		P.heldOrder = nil
+		if rs := P.race; rs != nil && co.pg.vc != nil {
+			rs.vc[co.pg.tid] = co.pg.vc
+		}
+		go co.main(vm)
+	}
+	co.resume <- true
+	msg := <-co.yield
+	if msg.done {
+		// locks the goroutine still holds when it ends are never released
+		for _, k := range P.heldOrder {
+			if ls := P.locks[k]; ls != nil && (ls.w || ls.r > 0) {
+				ls.dead = true
+			}
+		}
+		restore()
+		if msg.pan != nil {
+			panic(msg.pan)
+		}
+		return true
+	}
+	co.cur, co.depth, co.panicStack, co.held = vm.cur, vm.depth, vm.panicStack, P.heldOrder
+	for _, k := range co.held {
+		if ls := P.locks[k]; ls != nil {
+			ls.parked = true
+		}
+	}
+	restore()
+	P.parked = append(P.parked, co)
+	return false
+}
+
+func (co *coro) main(vm *VM) {
+	defer func() {
+		r := recover()
+		if _, ok := r.(abortCoro); ok {
+			r = nil
+		}
+		co.yield <- coroMsg{done: true, pan: r}
+	}()
+	if !<-co.resume {
+		panic(abortCoro{})
+	}
+	pg := co.pg
+	if pg.invoke != nil {
+		vm.invokeMethod(pg.recv, pg.invoke.Method, pg.args)
+	} else {
+		vm.callValue(pg.fn, pg.args, nil)
+	}
+}
+
+// abortCoros unwinds every parked goroutine at the end of a path.
+func (vm *VM) abortCoros() {
+	if vm.P == nil {
+		return
+	}
+	for _, co := range vm.P.parked {
+		co.resume <- false
+		<-co.yield
+	}
+	vm.P.parked = nil
+}
+
+// resumeReady resumes parked goroutines whose wake-up condition holds, until none is left
+// that can go on.  Returns whether any of them ran.
+func (vm *VM) resumeReady() bool {
+	any := false
+	for progress := true; progress; {
+		progress = false
+		for i := 0; i < len(vm.P.parked); i++ {
+			co := vm.P.parked[i]
+			if co.ready == nil || !co.ready() {
+				continue
+			}
+			vm.P.parked = append(vm.P.parked[:i:i], vm.P.parked[i+1:]...)
+			vm.stepCoro(co)
+			progress, any = true, true
+			break
+		}
+	}
+	return any
+}
+
+// runPendingAt runs only the i-th queued goroutine (until it finishes or parks).
 func (vm *VM) runPendingAt(i int) int {
 	if i < 0 || i >= len(vm.P.pending) {
 		return 0
 	}
 	pg := vm.P.pending[i]
-	rest := append(append([]*pendingGo(nil), vm.P.pending[:i]...), vm.P.pending[i+1:]...)
-	vm.P.pending = []*pendingGo{pg}
-	n := vm.runPendingGoroutines()
-	vm.P.pending = append(rest, vm.P.pending...)
-	return n
-}
-
-// runPendingGoroutines runs every queued goroutine to completion (FIFO, including the ones
-// spawned meanwhile).  Returns the number that parked.
-func (vm *VM) runPendingGoroutines() int {
-	parked := 0
-	for len(vm.P.pending) > 0 {
-		pg := vm.P.pending[0]
-		vm.P.pending = vm.P.pending[1:]
-		func() {
-			saved := vm.cur
-			savedDepth := vm.depth
-			savedThread := vm.P.curThread
-			savedHeld := vm.P.heldOrder
-			var parkedHeld []string
-			if pg.tid != 0 {
-				vm.P.curThread = pg.tid
-				vm.P.heldOrder = nil
-				if rs := vm.P.race; rs != nil {
-					rs.vc[pg.tid] = pg.vc
-				}
-			}
-			defer func() {
-				vm.cur = saved
-				vm.depth = savedDepth
-				vm.P.curThread = savedThread
-				vm.P.heldOrder = savedHeld
-				if r := recover(); r != nil {
-					if _, ok := r.(*blockedSignal); ok {
-						parked++
-						// the locks a parked goroutine holds stay taken for the rest of the history
-						for _, k := range parkedHeld {
-							if ls := vm.P.locks[k]; ls != nil && (ls.w || ls.r > 0) {
-								ls.other = true
-								ls.label += " (held by a parked goroutine)"
-							}
-						}
-						return
-					}
-					panic(r)
-				}
-			}()
-			defer func() {
-				// runs first: what the goroutine itself still holds when it stops
-				parkedHeld = nil
-				for _, k := range vm.P.heldOrder {
-					mine := true
-					for _, h := range savedHeld {
-						if h == k {
-							mine = false
-						}
-					}
-					if mine {
-						parkedHeld = append(parkedHeld, k)
-					}
-				}
-			}()
-			if pg.invoke != nil {
-				vm.invokeMethod(pg.recv, pg.invoke.Method, pg.args)
-			} else {
-				vm.callValue(pg.fn, pg.args, nil)
-			}
-		}()
+	vm.P.pending = append(vm.P.pending[:i:i], vm.P.pending[i+1:]...)
+	if vm.stepCoro(&coro{pg: pg, resume: make(chan bool), yield: make(chan coroMsg)}) {
+		return 0
 	}
-	return parked
+	return 1
 }
 
-func (vm *VM) block(what string) {
+// runPendingGoroutines runs every queued goroutine (FIFO, including the ones spawned
+// meanwhile) and every parked one that can go on, until all have finished or are parked.
+// Returns the number that are parked afterwards.
+func (vm *VM) runPendingGoroutines() int {
+	for {
+		vm.resumeReady()
+		if len(vm.P.pending) == 0 {
+			break
+		}
+		vm.runPendingAt(0)
+	}
+	return len(vm.P.parked)
+}
+
+// block: the running thread cannot go on until ready() holds.  A goroutine parks.  The main
+// thread lets the other goroutines run (as the Go scheduler would) and goes on if that made
+// ready() true; otherwise it is blocked for good (blockedSignal: a "blocked" path end, or
+// vBlocks).  The interposed operation of thread 2 is never suspended.
+func (vm *VM) block(what string, ready func() bool) {
+	if co := vm.co; co != nil && ready != nil {
+		co.ready, co.what = ready, what
+		co.yield <- coroMsg{}
+		if !<-co.resume {
+			panic(abortCoro{})
+		}
+		return
+	}
+	if vm.P.curThread == 1 && ready != nil && !vm.inInit {
+		for !ready() {
+			if vm.resumeReady() {
+				continue
+			}
+			if len(vm.P.pending) > 0 {
+				vm.runPendingAt(0)
+				continue
+			}
+			break
+		}
+		if ready() {
+			return
+		}
+	}
 	panic(&blockedSignal{what})
 }
 
 func (vm *VM) chanSend(c ChanV, v Value) {
 	vm.lockEventLog("chan", nil, true)
 	if c.Obj == nil {
-		vm.block("send on nil channel")
+		vm.block("send on nil channel", nil)
 	}
-	cd := c.Obj.Val.(*ChanData)
-	if cd.Closed {
-		panic(&goPanic{runtime: "send on closed channel", where: vm.where()})
+	for {
+		cd := c.Obj.Val.(*ChanData)
+		if cd.Closed {
+			panic(&goPanic{runtime: "send on closed channel", where: vm.where()})
+		}
+		if len(cd.Q) < cd.Cap {
+			nq := append(append([]Value(nil), cd.Q...), v)
+			vm.setObj(c.Obj, &ChanData{Q: nq, Cap: cd.Cap})
+			vm.raceRelease(fmt.Sprintf("chan:%d", c.Obj.ID), true) // a send happens before the receive that takes it
+			return
+		}
+		vm.block("send on full channel", func() bool {
+			d := c.Obj.Val.(*ChanData)
+			return d.Closed || len(d.Q) < d.Cap
+		})
 	}
-	if len(cd.Q) < cd.Cap {
-		nq := append(append([]Value(nil), cd.Q...), v)
-		vm.setObj(c.Obj, &ChanData{Q: nq, Cap: cd.Cap})
-		return
-	}
-	vm.block("send on full channel")
 }
 
 func (vm *VM) chanRecv(c ChanV, elem types.Type) (Value, bool) {
 	vm.lockEventLog("chan", nil, true)
 	if c.Obj == nil {
-		vm.block("receive on nil channel")
+		vm.block("receive on nil channel", nil)
 	}
-	cd := c.Obj.Val.(*ChanData)
-	if len(cd.Q) > 0 {
-		v := cd.Q[0]
-		vm.setObj(c.Obj, &ChanData{Q: append([]Value(nil), cd.Q[1:]...), Cap: cd.Cap, Closed: cd.Closed})
-		return v, true
+	for {
+		cd := c.Obj.Val.(*ChanData)
+		if len(cd.Q) > 0 {
+			v := cd.Q[0]
+			vm.setObj(c.Obj, &ChanData{Q: append([]Value(nil), cd.Q[1:]...), Cap: cd.Cap, Closed: cd.Closed})
+			vm.raceAcquire(fmt.Sprintf("chan:%d", c.Obj.ID), true)
+			return v, true
+		}
+		if cd.Closed {
+			vm.raceAcquire(fmt.Sprintf("chan:%d", c.Obj.ID), true) // close happens before a receive that observes it
+			return vm.zero(elem), false
+		}
+		vm.block("receive on empty channel", func() bool {
+			d := c.Obj.Val.(*ChanData)
+			return d.Closed || len(d.Q) > 0
+		})
 	}
-	if cd.Closed {
-		return vm.zero(elem), false
-	}
-	vm.block("receive on empty channel")
-	return nil, false
 }
 
 func (vm *VM) chanClose(c ChanV) {
@@ -222,30 +359,32 @@ func (vm *VM) chanClose(c ChanV) {
 		panic(&goPanic{runtime: "close of closed channel", where: vm.where()})
 	}
 	vm.setObj(c.Obj, &ChanData{Q: cd.Q, Cap: cd.Cap, Closed: true})
+	vm.raceRelease(fmt.Sprintf("chan:%d", c.Obj.ID), true)
 }
 
 // selectStmt: the ready cases are alternatives of a nondeterministic choice.
 func (vm *VM) selectStmt(fr *Frame, x *ssa.Select) Value {
-	type ready struct {
-		idx int
-	}
-	var rs []int
-	for i, st := range x.States {
-		c := vm.get(fr, st.Chan).(ChanV)
-		if c.Obj == nil {
-			continue
-		}
-		cd := c.Obj.Val.(*ChanData)
-		if st.Dir == types.SendOnly {
-			if cd.Closed || len(cd.Q) < cd.Cap {
-				rs = append(rs, i)
+	readySet := func() []int {
+		var rs []int
+		for i, st := range x.States {
+			c := vm.get(fr, st.Chan).(ChanV)
+			if c.Obj == nil {
+				continue
 			}
-		} else {
-			if len(cd.Q) > 0 || cd.Closed {
-				rs = append(rs, i)
+			cd := c.Obj.Val.(*ChanData)
+			if st.Dir == types.SendOnly {
+				if cd.Closed || len(cd.Q) < cd.Cap {
+					rs = append(rs, i)
+				}
+			} else {
+				if len(cd.Q) > 0 || cd.Closed {
+					rs = append(rs, i)
+				}
 			}
 		}
+		return rs
 	}
+	rs := readySet()
 	nrecv := 0
 	for _, st := range x.States {
 		if st.Dir == types.RecvOnly {
@@ -270,7 +409,10 @@ func (vm *VM) selectStmt(fr *Frame, x *ssa.Select) Value {
 		if !x.Blocking {
 			return mk(-1, false, zeros())
 		}
-		vm.block("select with no ready case")
+		for len(rs) == 0 {
+			vm.block("select with no ready case", func() bool { return len(readySet()) > 0 })
+			rs = readySet()
+		}
 	}
 	k := rs[vm.chooseLogged(len(rs))]
 	st := x.States[k]
